@@ -49,24 +49,36 @@ class Sub:
         self.exc = None
         self.rt = None
         self.doc = None
+        self.text0 = None
 
 
 def run_one(seed, preset=None, tier="quick", want_case=False):
     tape = Tape(seed, preset)
     cfgt = tape.sub("cfg")
     ot = tape.sub("ops")
-    schema = gen_schema(tape, {"max_objects": 4, "subscription_pct": 100, "default_impl_pct": 15, "mutation_pct": 0})
+    schema = gen_schema(tape, {"max_objects": 4, "subscription_pct": 100, "default_impl_pct": 15, "mutation_pct": 0,
+                               "subscription_default_impl_pct": 30, "rename_roots_pct": 25, "lag_pct": 15 if seed % 3 == 0 else 0})
     sdl = print_sdl(schema)
     nsubs = ot.rint(1, 3)
     subs = []
     for i in range(nsubs):
         s = Sub(i)
-        doc = gen_document(schema, tape, {"op_kinds": ("subscription",), "max_ops": 1, "max_depth": 3, "max_sel": 4, "max_frags": 2},
-                           stream="doc%d" % i)
+        if i > 0 and ot.chance(30):
+            # the same document text consumed by two subscriptions at once (other variables)
+            doc, text0 = subs[0].doc, subs[0].text0
+        else:
+            doc = gen_document(schema, tape, {"op_kinds": ("subscription",), "max_ops": 1, "max_depth": 3, "max_sel": 4, "max_frags": 2},
+                               stream="doc%d" % i)
+            if ot.chance(30):
+                # other operations around the subscription: it is then selected by operation_name
+                from simv.model.document import Field, Operation
+                doc.operations()[0].name = doc.operations()[0].name or "TheSub"
+                doc.defs.insert(0, Operation("query", "LeadingQuery", [], [Field("__typename")]))
+            text0 = print_document(doc, tape.draw("doc%d" % i, 3))
         s.doc = doc
-        s.text = print_document(doc, tape.draw("doc%d" % i, 3))
-        op = doc.operations()[0]
-        s.op_name = op.name if ot.chance(50) else None
+        s.text = s.text0 = text0
+        op = next(o for o in doc.operations() if o.op == "subscription")
+        s.op_name = op.name if (ot.chance(50) or len(doc.operations()) > 1) else None
         s.variables = gen_variables(schema, tape, op, stream="vars%d" % i, null_pct=0)
         if ot.chance(15):
             s.text, s.refused = corrupt_text(s.text, ot)
@@ -78,7 +90,7 @@ def run_one(seed, preset=None, tier="quick", want_case=False):
             if s.refused is None:
                 s.variables = gen_variables(schema, Tape(seed, preset), op, stream="vars%d" % i, null_pct=0)
         if not s.refused:
-            for k in range(ot.rint(0, 4)):
+            for k in range(ot.rint(0, 4 if tier == "quick" else 9)):
                 none_root = ot.chance(10)
                 stream = "data%d_%d" % (i, k)
                 base = RefExec(schema, doc, tape, stream).run(s.op_name, s.variables, None, none_root)
